@@ -187,6 +187,7 @@ def run_family(tier):
         "violations": detailed[:400], "violation_count": len(detailed),
         "divergences": div_detail, "divergence_count": len(divs),
         "divergent_traces": len({d["trace"] for d in divs}),
+        "div_trace_names": sorted({os.path.basename(d["trace"]) + "@" + os.path.dirname(d["trace"])[-12:] for d in divs}),
         "features": [{"sig": f["sig"], "flags": f["flags"], "n": f["n"]} for f in feats],
         "samples": [{"trace": os.path.basename(f["path"]), "ops": f["ops"]} for f in feats[:3]],
         "mc": mc,
